@@ -1,13 +1,18 @@
 /-
   Transport glue (renet_netcode/src/{server,client}.rs, model `Transport/Glue.lean`) : property C20.
 
-  Part 1  the netcode slot table: which public call adds / removes which client id (`TStep`)
-  Part 2  `handle_server_result` against the renet connection table: the lock-step relation `Sync`
-  Part 3  the loops of `update` / `send_packets` / `disconnect_all`; `LockStep`
-  Part 4  the event log mirrors the netcode results
-  Part 5  payload routing
-  Part 6  the client glue
-  Part 7  no unwinding
+  Part 1  the netcode slot table: which public call adds / removes which client id (`TStep`), where a `Payload` /
+          `ClientDisconnected` result of `process_packet` comes from (`Auth`), when `update_client` drops a client
+          (`UCShape`); proved by unfolding the netcode model, no table invariant assumed
+  Part 2  `handle_server_result` against the renet connection table: the combined step (`handle_sync`), `LockStep`
+  Part 3  the loops of `update` / `send_packets` / `disconnect_all` (`handleLoop`), their factorisation into a netcode-only
+          run (`ncTrace`) + renet calls (`opOf`) + datagrams (`dgOf`); `runGlue`, `GInv`
+  Part 4  `update` factorised (`IsUpdateRun`); the event log mirrors the netcode results
+  Part 5  payload routing, inbound and outbound (`Sealed`, `SendRun`); why a session ends on the server
+  Part 6  the client glue, branch by branch
+  Part 7  no unwinding: `disconnect_all` and the client `update` total; server `update` / `send_packets` unwind only if a
+          netcode call does (`NcPanic`)
+  Part 8  no server-side connection is ever `Connecting` (`Live`); after `update`, renet's connected ids = netcode's ids
 -/
 import RenetVerif.Transport.Glue
 import RenetVerif.Lemmas.ServerLemmas
@@ -190,15 +195,22 @@ theorem tstep_remove {cl : Slots} {i : Nat} {c : Connection} (h : cl[i]? = some 
   obtain ⟨l1, l2, e1, e2⟩ := ids_set cl i (some c) none h
   exact ⟨l1, l2, by simpa [optId] using e1, by simpa [optId] using e2⟩
 
-/-- result of the fallible netcode server calls: table effect on success, table ids unchanged on error -/
-def Post (cl : Slots) : NetcodeServer.SRes → Prop
-  | .ok (r, s') => TStep cl s'.clients r
+/-- result of the fallible netcode server calls: table effect `TStep` and a further property `A` of the result on
+    success, table ids unchanged on error -/
+def Post (cl : Slots) (A : ServerResult → Prop) : NetcodeServer.SRes → Prop
+  | .ok (r, s') => TStep cl s'.clients r ∧ A r
   | .err (_, s') => ids s'.clients = ids cl
   | .panic _ => True
 
-theorem post_bind {α : Type} {cl : Slots} {x : Res (NetcodeError × NetcodeServer) α} {f : α → NetcodeServer.SRes}
-    (hx : ∀ e s', x = .err (e, s') → ids s'.clients = ids cl) (hf : ∀ v, x = .ok v → Post cl (f v)) :
-    Post cl (x >>= f) := by
+/-- `A` holds of the results that concern no connected client -/
+structure Benign (A : ServerResult → Prop) : Prop where
+  none : A .none
+  toSend : ∀ ad p, A (.packetToSend ad p)
+
+theorem post_bind {α : Type} {cl : Slots} {A : ServerResult → Prop} {x : Res (NetcodeError × NetcodeServer) α}
+    {f : α → NetcodeServer.SRes}
+    (hx : ∀ e s', x = .err (e, s') → ids s'.clients = ids cl) (hf : ∀ v, x = .ok v → Post cl A (f v)) :
+    Post cl A (x >>= f) := by
   cases x with
   | ok v => exact hf v rfl
   | err e => obtain ⟨e, s'⟩ := e; exact hx e s' rfl
@@ -218,8 +230,9 @@ theorem findOrAdd_clients (s : NetcodeServer) (e : ConnectTokenEntry) :
   extract_lets st
   split <;> rfl
 
-theorem hcr_post (a : AEAD) (cl : Slots) (s : NetcodeServer) (hs : ids s.clients = ids cl) (addr : Addr) (vi : Bytes)
-    (pid ex : Nat) (xn d : Bytes) : Post cl (NetcodeServer.handleConnectionRequest a s addr vi pid ex xn d) := by
+theorem hcr_post (a : AEAD) (cl : Slots) {A : ServerResult → Prop} (hA : Benign A) (s : NetcodeServer)
+    (hs : ids s.clients = ids cl) (addr : Addr) (vi : Bytes)
+    (pid ex : Nat) (xn d : Bytes) : Post cl A (NetcodeServer.handleConnectionRequest a s addr vi pid ex xn d) := by
   unfold NetcodeServer.handleConnectionRequest
   split
   · exact hs
@@ -235,9 +248,9 @@ theorem hcr_post (a : AEAD) (cl : Slots) (s : NetcodeServer) (hs : ids s.clients
   split
   · exact hs
   split
-  · exact hs
+  · exact ⟨hs, hA.none⟩
   split
-  · exact hs
+  · exact ⟨hs, hA.none⟩
   split
   rename_i s1 added hfa
   have hs1 : ids s1.clients = ids cl := by
@@ -246,13 +259,13 @@ theorem hcr_post (a : AEAD) (cl : Slots) (s : NetcodeServer) (hs : ids s.clients
     show ids s1.clients = ids cl
     rw [this]; exact hs
   split
-  · exact hs1
+  · exact ⟨hs1, hA.none⟩
   split
   · extract_lets s2
     refine post_bind (fun e s' he => ?_) (fun out _ => ?_)
     · rw [lift_err he]; exact hs1
     · refine post_bind (fun e s' he => absurd he incU64_not_err) (fun g _ => ?_)
-      exact hs1
+      exact ⟨hs1, hA.toSend _ _⟩
   · refine post_bind (fun e s' he => absurd he incU64_not_err) (fun cs _ => ?_)
     extract_lets s2
     refine post_bind (fun e s' he => ?_) (fun pk _ => ?_)
@@ -260,14 +273,34 @@ theorem hcr_post (a : AEAD) (cl : Slots) (s : NetcodeServer) (hs : ids s.clients
     refine post_bind (fun e s' he => ?_) (fun out _ => ?_)
     · rw [lift_err he]; exact hs1
     refine post_bind (fun e s' he => absurd he incU64_not_err) (fun g _ => ?_)
-    exact hs1
+    exact ⟨hs1, hA.toSend _ _⟩
 
 theorem mem_ids_of_at {cl : Slots} {i : Nat} {c : Connection} (h : cl[i]? = some (some c)) : c.clientId ∈ ids cl := by
   obtain ⟨l1, l2, e1, _⟩ := ids_set cl i (some c) none h
   rw [e1]; simp [optId]
 
+/-- **where a `Payload` / `ClientDisconnected` result of `process_packet` comes from**: the datagram came from the
+    address of a connected client with that id and decodes — under that client's receive key and replay window — as a
+    payload packet with these bytes / as a disconnect packet.  (With C04 this makes it that client's own datagram.) -/
+def Auth (a : AEAD) (s : NetcodeServer) (addr : Addr) (buf : Bytes) : ServerResult → Prop
+  | .payload id p => ∃ slot client sq rp, findClientByAddr s.clients addr = some (slot, client) ∧
+      client.clientId = id ∧ client.state = .connected ∧
+      Netcode.Packet.decode a buf s.protocolId (some client.receiveKey) (some client.replayProtection) =
+        (Res.ok (sq, Netcode.Packet.payload p), rp)
+  | .clientDisconnected id ad pl => ∃ slot client sq rp, findClientByAddr s.clients addr = some (slot, client) ∧
+      client.clientId = id ∧ client.state = .connected ∧ ad = addr ∧ pl = none ∧
+      Netcode.Packet.decode a buf s.protocolId (some client.receiveKey) (some client.replayProtection) =
+        (Res.ok (sq, Netcode.Packet.disconnect), rp)
+  | .clientConnected _ ad _ _ => ad = addr
+  | .none => True
+  | .packetToSend _ _ => True
+
+theorem auth_benign (a : AEAD) (s : NetcodeServer) (addr : Addr) (buf : Bytes) : Benign (Auth a s addr buf) :=
+  ⟨trivial, fun _ _ => trivial⟩
+
 theorem ppi_post (a : AEAD) (s : NetcodeServer) (addr : Addr) (buf : Bytes) :
-    Post s.clients (NetcodeServer.processPacketInternal a s addr buf) := by
+    Post s.clients (Auth a s addr buf) (NetcodeServer.processPacketInternal a s addr buf) := by
+  have hB := auth_benign a s addr buf
   unfold NetcodeServer.processPacketInternal
   split
   · exact rfl
@@ -289,12 +322,13 @@ theorem ppi_post (a : AEAD) (s : NetcodeServer) (addr : Addr) (buf : Bytes) :
     · trivial
     · exact hs1
     · split
-      · split
-        · exact hdis
-        · exact ⟨hs2, (mem_ids_of_at hat : client.clientId ∈ ids s.clients)⟩
-        · exact hs2
-        · exact hs1
-      · exact hs1
+      · rename_i hstate
+        split
+        · exact ⟨hdis, slot, client, _, rp, hfa, rfl, hstate, rfl, rfl, hdec⟩
+        · exact ⟨⟨hs2, (mem_ids_of_at hat : client.clientId ∈ ids s.clients)⟩, slot, client, _, rp, hfa, rfl, hstate, hdec⟩
+        · exact ⟨hs2, trivial⟩
+        · exact ⟨hs1, trivial⟩
+      · exact ⟨hs1, trivial⟩
   split
   · -- datagram from the address of a pending client
     rename_i pending hpf
@@ -304,22 +338,21 @@ theorem ppi_post (a : AEAD) (s : NetcodeServer) (addr : Addr) (buf : Bytes) :
     split
     · trivial
     · exact rfl
-    · 
-      split
-      · exact hcr_post a s.clients s2 rfl _ _ _ _ _ _
+    · split
+      · exact hcr_post a s.clients hB s2 rfl _ _ _ _ _ _
       · refine post_bind (fun e s' he => ?_) (fun ct _ => ?_)
         · rw [lift_err he]
         split
-        · exact rfl
+        · exact ⟨rfl, trivial⟩
         rename_i hct
         split
-        · exact rfl
+        · exact ⟨rfl, trivial⟩
         rename_i hfree
         split
         · refine post_bind (fun e s' he => ?_) (fun out _ => ?_)
           · rw [lift_err he]
           refine post_bind (fun e s' he => absurd he incU64_not_err) (fun g _ => ?_)
-          exact rfl
+          exact ⟨rfl, trivial⟩
         · rename_i clientIndex hff
           extract_lets pending3 packet
           refine post_bind (fun e s' he => ?_) (fun out _ => ?_)
@@ -336,8 +369,8 @@ theorem ppi_post (a : AEAD) (s : NetcodeServer) (addr : Addr) (buf : Bytes) :
             rw [hid]
             exact findSlot_isSome.mpr hm
           obtain ⟨l1, l2, e1, e2⟩ := ids_set s.clients clientIndex none (some pending4) (firstFree_some hff)
-          exact ⟨hnot, l1, l2, by simpa [optId] using e1, by simpa [optId] using e2⟩
-      · exact rfl
+          exact ⟨⟨hnot, l1, l2, by simpa [optId] using e1, by simpa [optId] using e2⟩, rfl⟩
+      · exact ⟨rfl, trivial⟩
   · -- datagram from an unknown address
     split
     rename_i r rp hdec
@@ -345,13 +378,11 @@ theorem ppi_post (a : AEAD) (s : NetcodeServer) (addr : Addr) (buf : Bytes) :
     · trivial
     · exact rfl
     · split
-      · exact hcr_post a s.clients s rfl _ _ _ _ _ _
+      · exact hcr_post a s.clients hB s rfl _ _ _ _ _ _
       · trivial
 
-/-- **`process_packet`**, any datagram from any address: the id table changes exactly as the returned
-    `ServerResult` says -/
-theorem processPacket_tstep {a : AEAD} {s s' : NetcodeServer} {addr : Addr} {buf : Bytes} {r : ServerResult}
-    (h : s.processPacket a addr buf = .ok (r, s')) : TStep s.clients s'.clients r := by
+theorem processPacket_post {a : AEAD} {s s' : NetcodeServer} {addr : Addr} {buf : Bytes} {r : ServerResult}
+    (h : s.processPacket a addr buf = .ok (r, s')) : TStep s.clients s'.clients r ∧ Auth a s addr buf r := by
   have hp := ppi_post a s addr buf
   unfold NetcodeServer.processPacket at h
   cases hx : NetcodeServer.processPacketInternal a s addr buf with
@@ -366,29 +397,62 @@ theorem processPacket_tstep {a : AEAD} {s s' : NetcodeServer} {addr : Addr} {buf
     simp only [Res.ok.injEq, Prod.mk.injEq] at h
     obtain ⟨h1, h2⟩ := h
     subst h1; subst h2
-    exact hp
+    exact ⟨hp, trivial⟩
   | panic m => rw [hx] at h; cases h
 
-/-- `update_client(id)` reports nothing but a disconnect of `id` itself -/
-def UCShape (id : Nat) : ServerResult → Prop
+/-- **`process_packet`**, any datagram from any address: the id table changes exactly as the returned
+    `ServerResult` says -/
+theorem processPacket_tstep {a : AEAD} {s s' : NetcodeServer} {addr : Addr} {buf : Bytes} {r : ServerResult}
+    (h : s.processPacket a addr buf = .ok (r, s')) : TStep s.clients s'.clients r := (processPacket_post h).1
+
+theorem processPacket_auth {a : AEAD} {s s' : NetcodeServer} {addr : Addr} {buf : Bytes} {r : ServerResult}
+    (h : s.processPacket a addr buf = .ok (r, s')) : Auth a s addr buf r := (processPacket_post h).2
+
+/-- the time-out test of `update_client` -/
+def TimedOut (s : NetcodeServer) (c : Connection) : Prop :=
+  c.timeoutSeconds > 0 ∧ c.lastPacketReceivedTime + fromSecs c.timeoutSeconds.toNat < s.currentTime
+
+/-- `update_client(id)` reports nothing but a disconnect of `id` itself, and that only for a slot that timed out
+    (or was already marked disconnected) -/
+def UCShape (s : NetcodeServer) (id : Nat) : ServerResult → Prop
   | .payload _ _ => False
   | .clientConnected _ _ _ _ => False
-  | .clientDisconnected i _ _ => i = id
+  | .clientDisconnected i _ _ => i = id ∧ ∃ (slot : Nat) (c : Connection), s.clients[slot]? = some (some c) ∧
+      c.clientId = id ∧ (c.state = .disconnected ∨ TimedOut s c)
   | .none => True
   | .packetToSend _ _ => True
 
-def PostE (cl : Slots) (id : Nat) : Res Empty (ServerResult × NetcodeServer) → Prop
-  | .ok (r, s') => TStep cl s'.clients r ∧ UCShape id r
+def PostE (cl : Slots) (A : ServerResult → Prop) : Res Empty (ServerResult × NetcodeServer) → Prop
+  | .ok (r, s') => TStep cl s'.clients r ∧ A r
   | _ => True
 
-theorem postE_bind {α : Type} {cl : Slots} {id : Nat} {x : Res Empty α} {f : α → Res Empty (ServerResult × NetcodeServer)}
-    (hf : ∀ v, x = .ok v → PostE cl id (f v)) : PostE cl id (x >>= f) := by
+theorem postE_bind {α : Type} {cl : Slots} {A : ServerResult → Prop} {x : Res Empty α}
+    {f : α → Res Empty (ServerResult × NetcodeServer)}
+    (hf : ∀ v, x = .ok v → PostE cl A (f v)) : PostE cl A (x >>= f) := by
   cases x with
   | ok v => exact hf v rfl
   | err e => exact e.elim
   | panic m => trivial
 
-theorem updateClient_post (a : AEAD) (s : NetcodeServer) (id : Nat) : PostE s.clients id (s.updateClient a id) := by
+theorem timedOut_of {s : NetcodeServer} {c : Connection}
+    (h : (if c.timeoutSeconds > 0 then do
+            let deadline ← durAdd c.lastPacketReceivedTime (fromSecs c.timeoutSeconds.toNat)
+                             "server.rs update_client: last_packet_received_time + timeout"
+            pure (decide (deadline < s.currentTime))
+          else pure false : Res Empty Bool) = .ok true) : TimedOut s c := by
+  split at h
+  · rename_i hpos
+    obtain ⟨dl, h1, h2⟩ := CI.bind_ok_cases h
+    unfold durAdd at h1
+    split at h1
+    · cases h1
+      simp only [Res.pure_eq, Res.ok.injEq, decide_eq_true_eq] at h2
+      exact ⟨hpos, h2⟩
+    · cases h1
+  · cases h
+
+theorem updateClient_post (a : AEAD) (s : NetcodeServer) (id : Nat) :
+    PostE s.clients (UCShape s id) (s.updateClient a id) := by
   unfold NetcodeServer.updateClient
   split
   · exact ⟨rfl, trivial⟩
@@ -403,7 +467,7 @@ theorem updateClient_post (a : AEAD) (s : NetcodeServer) (id : Nat) : PostE s.cl
     simp only [Option.some.injEq] at this
     exact this.symm
   subst hc
-  refine postE_bind (fun timedOut _ => ?_)
+  refine postE_bind (fun timedOut hto => ?_)
   extract_lets client1 s1 packet
   have hdis : ∀ p, TStep s.clients (s.clients.set slot none) (.clientDisconnected id client1.addr p) := by
     intro p
@@ -411,11 +475,16 @@ theorem updateClient_post (a : AEAD) (s : NetcodeServer) (id : Nat) : PostE s.cl
     rw [hid] at this
     exact this
   split
-  · split
+  · rename_i hstate
+    have hcause : client.state = .disconnected ∨ TimedOut s client := by
+      cases timedOut with
+      | true => exact Or.inr (timedOut_of hto)
+      | false => exact Or.inl hstate
+    split
     · trivial
-    · exact ⟨hdis none, rfl⟩
+    · exact ⟨hdis none, rfl, slot, client, hat, hid, hcause⟩
     · rename_i out _
-      exact ⟨hdis (some out), rfl⟩
+      exact ⟨hdis (some out), rfl, slot, client, hat, hid, hcause⟩
   · generalize (durAdd client1.lastPacketSendTime C.NETCODE_SEND_RATE_NS "server.rs update_client: last_packet_send_time + SEND_RATE" : Res Empty Nat) = x
     apply postE_bind
     intro due _
@@ -442,7 +511,7 @@ theorem updateClient_tstep {a : AEAD} {s s' : NetcodeServer} {id : Nat} {r : Ser
   exact hp.1
 
 theorem updateClient_shape {a : AEAD} {s s' : NetcodeServer} {id : Nat} {r : ServerResult}
-    (h : s.updateClient a id = .ok (r, s')) : UCShape id r := by
+    (h : s.updateClient a id = .ok (r, s')) : UCShape s id r := by
   have hp := updateClient_post a s id
   rw [h] at hp
   exact hp.2
@@ -1380,20 +1449,70 @@ theorem serverUpdate_routing {a : AEAD} {g g' : ServerGlue} {d : Nat} {inbox : L
     {popped : List Event} {T : UpdateTrace} (hr : IsUpdateRun a g d inbox g' out popped T) {b : Bytes} {id : Nat}
     (h : SL.SrvOp.processPacketFrom b id ∈ T.all.flatMap opOf) :
     ∃ (nsA : NetcodeServer) (dg : Dgram) (nsB : NetcodeServer), dg ∈ inbox ∧
-      nsA.processPacket a dg.1 dg.2 = .ok (.payload id b, nsB) ∧ id ∈ nsA.clientsId := by
+      nsA.processPacket a dg.1 dg.2 = .ok (.payload id b, nsB) ∧ id ∈ nsA.clientsId ∧
+      Auth a nsA dg.1 dg.2 (.payload id b) := by
   have hm := mem_flatMap_opOf_ppf h
   unfold UpdateTrace.all at hm
   rcases List.mem_append.mp hm with hm | hm
   · rcases List.mem_append.mp hm with hm | hm
     · obtain ⟨nsA, dg, nsB, hdg, hf⟩ := ncTrace_mem hr.recv _ hm
-      exact ⟨nsA, dg, nsB, hdg, hf, (processPacket_tstep hf).2⟩
+      exact ⟨nsA, dg, nsB, hdg, hf, (processPacket_tstep hf).2, processPacket_auth hf⟩
     · obtain ⟨nsA, x, nsB, _, hf⟩ := ncTrace_mem hr.ticks _ hm
-      exact absurd (updateClient_shape hf) (by simp [UCShape])
+      exact (updateClient_shape hf).elim
   · obtain ⟨nsA, x, nsB, _, hf⟩ := ncTrace_mem hr.dead _ hm
     obtain ⟨_, hin, hout⟩ := disconnect_spec hf
     by_cases hx : x ∈ ids nsA.clients
     · obtain ⟨ad, p, e⟩ := hin hx; cases e
     · cases (hout hx).1
+
+/-- **why a session ends on the server.**  Every `ClientDisconnected{id}` netcode reports during one `update` has one
+    of three causes: (1) a queued datagram from that client's address that decodes under that client's key as a
+    disconnect packet; (2) `update_client(id)` found the slot timed out; (3) renet held the connection disconnected
+    (channel error or `RenetServer::disconnect`) and the transport told netcode.  Nothing else removes a client. -/
+theorem serverUpdate_disconnect_causes {a : AEAD} {g g' : ServerGlue} {d : Nat} {inbox : List Dgram} {out : Array Dgram}
+    {popped : List Event} {T : UpdateTrace} (hr : IsUpdateRun a g d inbox g' out popped T) {id : Nat} {ad : Addr}
+    {pl : Option Bytes} (h : ServerResult.clientDisconnected id ad pl ∈ T.all) :
+    (∃ (nsA : NetcodeServer) (dg : Dgram) (nsB : NetcodeServer), dg ∈ inbox ∧
+        nsA.processPacket a dg.1 dg.2 = .ok (.clientDisconnected id ad pl, nsB) ∧
+        Auth a nsA dg.1 dg.2 (.clientDisconnected id ad pl)) ∨
+    (∃ (nsA nsB : NetcodeServer), nsA.updateClient a id = .ok (.clientDisconnected id ad pl, nsB) ∧
+        UCShape nsA id (.clientDisconnected id ad pl)) ∨
+    id ∈ T.rs2.disconnectionsId := by
+  unfold UpdateTrace.all at h
+  rcases List.mem_append.mp h with hm | hm
+  · rcases List.mem_append.mp hm with hm | hm
+    · obtain ⟨nsA, dg, nsB, hdg, hf⟩ := ncTrace_mem hr.recv _ hm
+      exact Or.inl ⟨nsA, dg, nsB, hdg, hf, processPacket_auth hf⟩
+    · obtain ⟨nsA, x, nsB, _, hf⟩ := ncTrace_mem hr.ticks _ hm
+      have hs := updateClient_shape hf
+      have hx : id = x := hs.1
+      subst hx
+      exact Or.inr (Or.inl ⟨nsA, nsB, hf, hs⟩)
+  · obtain ⟨nsA, x, nsB, hx, hf⟩ := ncTrace_mem hr.dead _ hm
+    obtain ⟨_, hin, hout⟩ := disconnect_spec hf
+    by_cases hxi : x ∈ ids nsA.clients
+    · obtain ⟨ad', p', e⟩ := hin hxi
+      cases e
+      exact Or.inr (Or.inr hx)
+    · cases (hout hxi).1
+
+/-- **a disconnect decided by the message layer on the server ends the session within one `update`**: if renet holds
+    client `id` disconnected with reason `r`, the next `update` makes netcode free its slot and the application's next
+    event about `id` is `ClientDisconnected{id, r}` -/
+theorem server_disconnect_propagates {a : AEAD} {g g' : ServerGlue} {d : Nat} {inbox : List Dgram} {out : Array Dgram}
+    (h : serverUpdate a g d inbox = .ok (g', out)) (hk : LockStep g) {popped : List Event}
+    (hs : SL.SrvInv (g.renet, popped)) {id : Nat} {c : Conn} {r : Reason}
+    (hf : SMap.find? g.renet.conns id = some c) (hst : c.status = .disconnected r) :
+    ∃ new tl, SL.eventLog (g'.renet, popped) = SL.eventLog (g.renet, popped) ++ new ∧
+      new.filter (SL.Event.about id) = .disconnected id r :: tl := by
+  obtain ⟨T, hr, _⟩ := serverUpdate_factor h popped
+  obtain ⟨_, hnd⟩ := serverUpdate_lockstep h hk
+  obtain ⟨new, hn, ho⟩ := SL.runSrv_first_reason _ _ _ hr.renet hs id c r hf hst
+  rcases ho with ⟨_, c', hf', hst'⟩ | ⟨tl, htl⟩
+  · have := hnd id c' hf'
+    rw [SL.Conn.isDisconnected_of_status hst'] at this
+    cases this
+  · exact ⟨new, tl, hn, htl⟩
 
 /-- what `generate_payload_packet(id, ·)` makes of the packets `ps`, in order, threading the netcode state;
     the first error abandons the rest -/
@@ -1612,6 +1731,60 @@ theorem clientRecvLoop_factor (a : AEAD) : ∀ (l : List Dgram) (g g' : ClientGl
           rw [h3']; rfl
         · simp only [Server.feedClient, h5, Res.bind_ok]
           exact h4
+
+/-- the alive branch of `update`, end to end -/
+theorem clientUpdate_alive_spec {a : AEAD} {g : ClientGlue} {d : Nat} {inbox : List Dgram} {o : ClientOut}
+    (hn : g.netcode.disconnectReason = none) (hr : g.renet.disconnectReason = none)
+    (h : clientUpdate a g d inbox = .ok o) :
+    (mirror g).status = (if g.netcode.isConnected then .connected else .connecting) ∧
+    ∃ (ps : List Bytes) (nc1 : NetcodeClient) (op : Option (Bytes × Addr)),
+      clientPayloads a g.netcode inbox = .ok (ps, nc1) ∧
+      Server.feedClient (mirror g) ps = .ok o.g.renet ∧
+      nc1.update a d = .ok (op, o.g.netcode) ∧
+      o.result = .ok () ∧ o.rest = [] ∧ o.out.toList = op.toList.map (fun x => (x.2, x.1)) := by
+  refine ⟨mirror_status hn hr, ?_⟩
+  rw [clientUpdate_alive hn hr] at h
+  obtain ⟨g1, h1, h2⟩ := CI.bind_ok_cases h
+  obtain ⟨⟨op, nc⟩, h3, h4⟩ := CI.bind_ok_cases h2
+  obtain ⟨ps, p1, p2⟩ := clientRecvLoop_factor a inbox _ g1 h1
+  cases op with
+  | none =>
+    simp only [Res.pure_eq, Res.ok.injEq] at h4
+    subst h4
+    exact ⟨ps, g1.netcode, none, p1, p2, h3, rfl, rfl, rfl⟩
+  | some v =>
+    obtain ⟨pkt, addr⟩ := v
+    simp only [Res.pure_eq, Res.ok.injEq] at h4
+    subst h4
+    exact ⟨ps, g1.netcode, some (pkt, addr), p1, p2, h3, rfl, rfl, rfl⟩
+
+/-- the application-disconnect branch of `update`, end to end: it always returns; netcode is disconnected with reason
+    `DisconnectedByClient`; the `Disconnect` datagram goes to the server address unless it could not be encoded -/
+theorem clientUpdate_app_disconnect_spec {a : AEAD} {g : ClientGlue} {error : Reason}
+    (hn : g.netcode.disconnectReason = none) (hr : g.renet.disconnectReason = some error) (d : Nat) (inbox : List Dgram) :
+    ∃ o, clientUpdate a g d inbox = .ok o ∧
+      o.g.netcode.disconnectReason = some .disconnectedByClient ∧ o.g.renet = g.renet ∧ o.rest = inbox ∧
+      ((∃ pkt, Netcode.Packet.disconnect.encode a C.NETCODE_MAX_PACKET_BYTES g.netcode.connectToken.protocolId
+            (some (g.netcode.sequence, g.netcode.connectToken.clientToServerKey)) = .ok pkt ∧
+          o.result = .error (.renet error) ∧ o.out = #[(g.netcode.serverAddr, pkt)]) ∨
+       (∃ e, o.result = .error (.netcode e) ∧ o.out = #[])) := by
+  rw [clientUpdate_renet_disconnected hn hr]
+  cases hd : (g.netcode.disconnect a).1 with
+  | ok v =>
+    obtain ⟨addr, pkt⟩ := v
+    obtain ⟨e1, e2⟩ := netcodeClient_disconnect_packet hd
+    subst e1
+    exact ⟨_, rfl, rfl, rfl, rfl, Or.inl ⟨pkt, e2, rfl, rfl⟩⟩
+  | err e => exact ⟨_, rfl, rfl, rfl, rfl, Or.inr ⟨e, rfl, rfl⟩⟩
+  | panic m =>
+    exfalso
+    unfold NetcodeClient.disconnect at hd
+    dsimp only at hd
+    rcases hp : Netcode.Packet.disconnect.encode a C.NETCODE_MAX_PACKET_BYTES g.netcode.connectToken.protocolId
+        (some (g.netcode.sequence, g.netcode.connectToken.clientToServerKey)) with out | e | m'
+    · rw [hp] at hd; cases hd
+    · rw [hp] at hd; cases hd
+    · exact Packet.encode_no_panic a _ _ _ _ m' hp
 
 /-- `send_packets` of the client: refused while netcode is disconnected -/
 theorem clientSendPackets_disconnected {a : AEAD} {g : ClientGlue} {reason : DisconnectReason}
@@ -2272,6 +2445,38 @@ def GPre (a : AEAD) (st : GState) : List GlueOp → Prop
   | [] => True
   | op :: rest => opValid st op ∧ ∀ st', op.apply a st = .ok st' → GPre a st' rest
 
+def opValidb (st : GState) : GlueOp → Bool
+  | .app sop => appOp sop && CI.srvValidb st.1.renet sop
+  | .update _ _ => true
+  | .sendPackets => true
+  | .disconnectAll => true
+
+def gpreb (a : AEAD) (st : GState) : List GlueOp → Bool
+  | [] => true
+  | op :: rest =>
+    opValidb st op &&
+    match op.apply a st with
+    | .ok st' => gpreb a st' rest
+    | _ => true
+
+theorem opValid_of_b {st : GState} {op : GlueOp} (h : opValidb st op = true) : opValid st op := by
+  cases op with
+  | app sop =>
+    simp only [opValidb, Bool.and_eq_true] at h
+    exact ⟨h.1, CI.srvValid_of_b h.2⟩
+  | update d inbox => trivial
+  | sendPackets => trivial
+  | disconnectAll => trivial
+
+theorem gpre_of_b (a : AEAD) : ∀ (ops : List GlueOp) (st : GState), gpreb a st ops = true → GPre a st ops
+  | [], _, _ => trivial
+  | op :: rest, st, h => by
+    simp only [gpreb, Bool.and_eq_true] at h
+    refine ⟨opValid_of_b h.1, fun st' e => ?_⟩
+    have h2 := h.2
+    rw [e] at h2
+    exact gpre_of_b a rest st' h2
+
 theorem sendLoop_inv_live {P : SliceCtor → Prop} (a : AEAD) :
     ∀ (l : List Nat) (g g' : ServerGlue) (out out' : Array Dgram), serverSendLoop a g l out = .ok (g', out') →
     g.renet.InvP P → Live g.renet → g'.renet.InvP P ∧ Live g'.renet
@@ -2339,6 +2544,28 @@ theorem runGlue_inv2 {P : SliceCtor → Prop} (hP : GoodP P) (a : AEAD) :
       exact runGlue_inv2 hP a rest st1 st' h (hp.2 st1 h1) (GlueOp.apply_inv2 hP h1 hp.1 hi)
     · cases h
     · cases h
+
+theorem runGlue_snoc (a : AEAD) : ∀ (ops : List GlueOp) (op : GlueOp) (st st' : GState),
+    runGlue a st (ops ++ [op]) = .ok st' → ∃ st1, runGlue a st ops = .ok st1 ∧ op.apply a st1 = .ok st'
+  | [], op, st, st', h => by
+    simp only [List.nil_append, runGlue] at h
+    split at h
+    · rename_i st1 h1
+      cases h
+      exact ⟨st, rfl, h1⟩
+    · cases h
+    · cases h
+  | o :: ops, op, st, st', h => by
+    simp only [List.cons_append, runGlue] at h ⊢
+    split at h
+    · rename_i st1 h1
+      exact runGlue_snoc a ops op st1 st' h
+    · cases h
+    · cases h
+
+theorem gpre_prefix (a : AEAD) : ∀ (ops ops2 : List GlueOp) (st : GState), GPre a st (ops ++ ops2) → GPre a st ops
+  | [], _, _, _ => trivial
+  | _ :: ops, ops2, _, h => ⟨h.1, fun st' e => gpre_prefix a ops ops2 st' (h.2 st' e)⟩
 
 theorem gInv2_fresh {P : SliceCtor → Prop} {ns : NetcodeServer} (h : ns.clientsId = []) (budget : Nat)
     (sc cc : List ChanCfg) : GInv2 P ({ netcode := ns, renet := Server.new budget sc cc }, []) :=
